@@ -571,6 +571,12 @@ package sam
 //@   after if#3: assert [c18.oneref] len(refs) == 1
 //@   # C11: the writer is started with the window, threshold and --append-snps exactly as given on the command line (the same
 //@   # values `variants` hands to the same writers), and with the reference's ID
+//@   # C11: with --reference the reference used for the pairs, the regions and the writer is the record read from that file
+//@   # (the same one `sam toPairAlign` uses), whatever sequence the annotation carries
+//@   ghost gFileRef fastaio.EncodedFastaRecord = fastaio.EncodedFastaRecord{}
+//@   after assign:ref#1: do gFileRef = ref
+//@   before call:AggregateWriteVariants#1: assert [c11.reference] implies(refFromFile, ref == gFileRef)
+//@   before call:WriteVariants#1: assert [c11.reference] implies(refFromFile, ref == gFileRef)
 //@   before call:AggregateWriteVariants#1: assert [c11.writer.args] arg(1) == old(start) && arg(2) == old(end) && arg(3) == old(appendSNP) && (arg(4) == old(threshold) || (isnan(arg(4)) && isnan(old(threshold)))) && arg(5) == ref.ID
 //@   before call:WriteVariants#1: assert [c11.writer.args] arg(1) == old(start) && arg(2) == old(end) && arg(3) == false && arg(4) == old(appendSNP) && arg(5) == ref.ID
 
